@@ -43,6 +43,14 @@ func keyChain(e ast.Expr) (string, bool) {
 		s, ok := keyChain(x.X)
 		return s + "." + x.Sel.Name, ok
 	case *ast.CallExpr:
+		if len(x.Args) == 1 {
+			// a function applied to the element (strings.ToLower(names[i])): a key of its own, unique only if the
+			// function is injective on the elements — which has to be confirmed in the table like any other key
+			if s, ok := keyChain(x.Args[0]); ok {
+				return types.ExprString(x.Fun) + "(" + s + ")", true
+			}
+			return "", false
+		}
 		s, ok := keyChain(x.Fun)
 		if len(x.Args) != 0 {
 			return "", false
